@@ -99,13 +99,13 @@ class Sched:
             self.cv.notify_all()
 
     # ---- scheduler side
-    def parked(self, timeout=20):
+    def parked(self, timeout=90):
         with self.cv:
             if not self.cv.wait_for(lambda: self.at is not None, timeout):
                 raise InfraError("writer thread did not reach a blocking point")
             return self.at
 
-    def release(self, cmd="go", timeout=20):
+    def release(self, cmd="go", timeout=90):
         with self.cv:
             g = self.gen
             self.cmd = cmd
